@@ -26,6 +26,7 @@ import AQ.Proofs.RecvGate
 import AQ.Model.PacketProtSpec
 import AQ.Gen.CryptoTables
 import AQ.Props.C02
+import AQ.Model.PnSpace
 
 namespace AQ.Props.C02b
 open AQ AQ.PacketProt
@@ -524,6 +525,111 @@ example : ¬ Rejected (σ := Unit) ⟨fun _ _ _ => false, fun c _ _ _ _ => (c, f
     ⟨some ⟨.oneRtt, none, [1], []⟩, fun _ => .ok 5 [] [], fun _ => false⟩ := by
   simp [Rejected, preChecks]
 
+/-! ## the expected packet number of a packet space -/
+
+section PnSpace
+open AQ.PnSpace
+
+/-- `expected_packet_number` is the successor of the largest packet number that
+    passed the gate — or that number itself when it arrived exactly as expected
+    (`if packet_number > expected` is strict; 0 before anything was accepted). -/
+def PnInv (s : St) : Prop :=
+  match s.largest with
+  | none => s.expected = 0
+  | some L => L ≤ s.expected ∧ s.expected ≤ L + 1
+
+theorem pn_step_inv (s : St) (e : Ev) (h : PnInv s) : PnInv (step s e) := by
+  cases e with
+  | dropped => exact h
+  | accepted pn =>
+    unfold PnInv at h ⊢
+    cases hl : s.largest with
+    | none =>
+      simp only [hl] at h
+      simp only [step, hl, h]
+      split <;> omega
+    | some L =>
+      simp only [hl] at h
+      simp only [step, hl, Nat.max_def]
+      split <;> split <;> omega
+
+/-- **C02** "a truncated packet number is always expanded to the candidate closest
+to the NEXT EXPECTED number": after ANY sequence of received packets — in order,
+late (below the largest), far ahead, duplicates, packets failing authentication
+— the reference value handed to `decode_packet_number` is the largest accepted
+packet number + 1 (or that number itself, see `PnInv`): it never drifts. -/
+theorem expected_tracks_largest (evs : List Ev) : PnInv (run {} evs) := by
+  have : ∀ (s : St), PnInv s → PnInv (run s evs) := by
+    induction evs with
+    | nil => intro s h; exact h
+    | cons e es ih => intro s h; exact ih _ (pn_step_inv s e h)
+  exact this {} rfl
+
+/-- a packet that fails authentication (or is a duplicate, or is dropped
+earlier) does not move the expected packet number -/
+theorem dropped_keeps_expected (s : St) : step s .dropped = s := rfl
+
+theorem largest_is_max_from (evs : List Ev) (pn : Nat) (s : St)
+    (h : Ev.accepted pn ∈ evs ∨ ∃ l, s.largest = some l ∧ pn ≤ l) :
+    ∃ L, (run s evs).largest = some L ∧ pn ≤ L := by
+  induction evs generalizing s with
+  | nil =>
+    rcases h with h | h
+    · cases h
+    · exact h
+  | cons e es ih =>
+    apply ih (step s e)
+    rcases h with h | ⟨l, hl, hle⟩
+    · rcases List.mem_cons.1 h with rfl | h
+      · right
+        cases hs : s.largest with
+        | none => exact ⟨pn, by simp [step, hs], Nat.le_refl _⟩
+        | some l => exact ⟨max l pn, by simp [step, hs], Nat.le_max_right _ _⟩
+      · exact Or.inl h
+    · right
+      cases e with
+      | dropped => exact ⟨l, hl, hle⟩
+      | accepted q => exact ⟨max l q, by simp [step, hl], Nat.le_trans hle (Nat.le_max_left _ _)⟩
+
+/-- the ghost `largest` really is the maximum of the accepted packet numbers -/
+theorem largest_is_max (evs : List Ev) (pn : Nat) (h : Ev.accepted pn ∈ evs) :
+    ∃ L, (run {} evs).largest = some L ∧ pn ≤ L :=
+  largest_is_max_from evs pn {} (Or.inl h)
+
+/-- **C02** "Every protected packet an endpoint emits is recovered … by its peer
+… and a truncated packet number is always expanded …": whatever was received
+before (any history `evs`), a packet whose number lies in the window around the
+largest accepted number `L` — `L + 1 − 2^(bits−1) < pn ≤ L + 2^(bits−1)`, which
+contains every number an RFC 9000 §17.1 sender may encode in `bits` bits — is
+expanded to exactly `pn` from its low `bits` bits with the connection's
+`expected_packet_number` as reference. -/
+theorem genuine_in_window_expands (evs : List Ev) (L bits pn : Nat)
+    (hL : (run {} evs).largest = some L) (h1 : 1 ≤ bits) (hpn : pn < 2 ^ 62)
+    (hlo : L + 1 < pn + 2 ^ (bits - 1)) (hhi : pn ≤ L + 2 ^ (bits - 1)) :
+    Codec.decodePacketNumber (pn % 2 ^ bits) bits (run {} evs).expected = pn := by
+  have inv := expected_tracks_largest evs
+  unfold PnInv at inv
+  simp only [hL] at inv
+  exact C02.pn_roundtrip pn bits _ h1 hpn (by omega) (by omega)
+
+/-- the same before anything was accepted in the space (`expected = 0`) -/
+theorem first_packet_expands (evs : List Ev) (bits pn : Nat)
+    (hL : (run {} evs).largest = none) (h1 : 1 ≤ bits) (hpn : pn < 2 ^ 62) (hhi : pn ≤ 2 ^ (bits - 1)) :
+    Codec.decodePacketNumber (pn % 2 ^ bits) bits (run {} evs).expected = pn := by
+  have inv := expected_tracks_largest evs
+  unfold PnInv at inv
+  simp only [hL] at inv
+  rw [inv]
+  have : 0 < 2 ^ (bits - 1) := Nat.two_pow_pos _
+  exact C02.pn_roundtrip pn bits 0 h1 hpn (by omega) (by omega)
+
+/-- the histories the seeded drift needs are covered: 200 late packets after a
+forward jump leave `expected` at largest + 1 -/
+example : (run {} (Ev.accepted 300 :: (List.range 200).map (fun i => Ev.accepted (100 + i)))).expected = 301 := by
+  decide +kernel
+
+end PnSpace
+
 end AQ.Props.C02b
 
 #print axioms AQ.Props.C02b.tables_match_rfc
@@ -542,3 +648,8 @@ end AQ.Props.C02b
 #print axioms AQ.Props.C02b.drop_changes_nothing
 #print axioms AQ.Props.C02b.genuine_accepted_after_drop
 #print axioms AQ.Props.C02b.hp_roundtrip_degenerate_counterexample
+#print axioms AQ.Props.C02b.expected_tracks_largest
+#print axioms AQ.Props.C02b.dropped_keeps_expected
+#print axioms AQ.Props.C02b.largest_is_max
+#print axioms AQ.Props.C02b.genuine_in_window_expands
+#print axioms AQ.Props.C02b.first_packet_expands
